@@ -109,7 +109,14 @@ pub fn run(tier: Tier) -> i32 {
     let opt = BfsOptions { check_results: false, check_loads: true, max_states: tier.pick(400_000, 4_000_000), full_probes: true };
     let mut acc = par_for(files.len(), 1, &deadline, |i, acc| {
         let (name, spec) = &files[i];
-        let Ok((entries, bytes)) = build_file(spec) else { return };
+        let Ok((entries, bytes)) = build_file(spec) else {
+            acc.count("prerequisite_failed_writer_error_(C01)", 1);
+            return;
+        };
+        if !vlib::fmt::decode_file(&bytes, Some(spec.cfg.effective_interval())).map(|l| l.entries == entries).unwrap_or(false) {
+            acc.count("prerequisite_failed_file_not_valid_(C01/C09)", 1);
+            return;
+        }
         if let Err(msg) = check_open(&bytes) {
             acc.violation(Violation {
                 signature: format!("open;{name}"),
